@@ -239,11 +239,42 @@ func runC34(c *Ctx) {
 	}
 	// pop-back: AddTx's eviction loop calls the callback for each popped item and subtracts its size
 	if a := c.fn(mp, "txFeeOrderedList", "AddTx"); a != nil {
-		pops := ssau.CallsIn(a, callPred(R{mp, "txFeeOrderedList", "popBack"}))
-		for k, p := range pops {
+		// eviction sites: calls of popBack, or a direct cut of the list's tail, in AddTx or in a method of the list
+		// that AddTx calls (the eviction step may be a helper)
+		type site struct {
+			g  *ssa.Function
+			in ssa.Instruction
+		}
+		var pops []site
+		scope := []*ssa.Function{a}
+		for _, b := range a.Blocks {
+			for _, in := range b.Instrs {
+				if cl, ok := in.(*ssa.Call); ok {
+					if h := cl.Call.StaticCallee(); h != nil && h.Pkg == a.Pkg && h != a && h.Signature.Recv() != nil && ssau.TypeName(h.Signature.Recv().Type()) == "txFeeOrderedList" && h.Name() != "popBack" && len(h.Blocks) > 0 {
+						scope = append(scope, h)
+					}
+				}
+			}
+		}
+		for _, g := range scope {
+			for _, p := range ssau.CallsIn(g, callPred(R{mp, "txFeeOrderedList", "popBack"})) {
+				pops = append(pops, site{g, p})
+			}
+			for _, b := range g.Blocks {
+				for _, in := range b.Instrs {
+					if st, ok := in.(*ssa.Store); ok && ssau.IsFieldOf(st.Addr, "txFeeOrderedList", "list") {
+						if sl, ok := st.Val.(*ssa.Slice); ok && sl.Low == nil && sl.High != nil && ssau.IsFieldOf(ssau.Unwrap(sl.X), "txFeeOrderedList", "list") {
+							pops = append(pops, site{g, st})
+						}
+					}
+				}
+			}
+		}
+		for k, ps := range pops {
+			g, p := ps.g, ps.in
 			hasCb := false
 			cut := ssau.NewCut()
-			for _, b := range a.Blocks {
+			for _, b := range g.Blocks {
 				for _, in := range b.Instrs {
 					if ci, ok := in.(ssa.CallInstruction); ok && ci.Common().StaticCallee() == nil && !ci.Common().IsInvoke() {
 						if ssau.IsFieldOf(ssau.Unwrap(ci.Common().Value), "txFeeOrderedList", "onPopBack") {
@@ -253,14 +284,14 @@ func runC34(c *Ctx) {
 					}
 				}
 			}
-			r := ssau.ReachAfter(a, p, cut)
+			r := ssau.ReachAfter(g, p, cut)
 			esc := false
-			for _, ret := range ssau.Returns(a) {
+			for _, ret := range ssau.Returns(g) {
 				if r.Instr(ret) {
 					esc = true
 				}
 			}
-			// may loop back to popBack again without the callback?
+			// may loop back to the eviction again without the callback?
 			if r.Instr(p) {
 				esc = true
 			}
@@ -400,7 +431,10 @@ func (c *Ctx) failingReturn(f *ssa.Function, ret *ssa.Return) bool {
 
 // budgetMirror: dealAddProposalTx and dealDelProposalTx update proposalsUsedAmount with the same operand and opposite operators, once per budget.
 func (c *Ctx) budgetMirror() {
+	// host: the function holding the per-budget loop (the updater itself, or the helper that sums the budgets)
+	hosts := map[*ssa.Function]*ssa.Function{}
 	sig := func(f *ssa.Function) (ops []string, operand []string, inLoop bool) {
+		hosts[f] = f
 		for _, b := range f.Blocks {
 			for _, in := range b.Instrs {
 				st, ok := in.(*ssa.Store)
@@ -434,6 +468,19 @@ func (c *Ctx) budgetMirror() {
 				if ssau.EnclosingLoopHeader(b) != nil {
 					inLoop = true
 				}
+				// the amount may be the result of a same-package helper that sums the budgets in its own loop
+				if cl, ok := ssau.Unwrap(other).(*ssa.Call); ok {
+					if h := cl.Call.StaticCallee(); h != nil && h.Pkg == f.Pkg && len(h.Blocks) > 0 {
+						for _, hb := range h.Blocks {
+							for _, hin := range hb.Instrs {
+								if add, ok := hin.(*ssa.BinOp); ok && add.Op == token.ADD && ssau.EnclosingLoopHeader(hb) != nil && ssau.TypeName(add.Type()) == "Fixed64" {
+									inLoop = true
+									hosts[f] = h
+								}
+							}
+						}
+					}
+				}
 			}
 		}
 		return
@@ -445,7 +492,7 @@ func (c *Ctx) budgetMirror() {
 	ao, aop, al := sig(a)
 	do, dop, dl := sig(d)
 	ok := len(ao) == 1 && len(do) == 1 && ao[0] == "+" && do[0] == "-" && strings.Join(aop, "|") == strings.Join(dop, "|") && al && dl &&
-		rangesWholeField(a, "Budgets") && rangesWholeField(d, "Budgets")
+		rangesWholeField(hosts[a], "Budgets") && rangesWholeField(hosts[d], "Budgets")
 	c.R.Check("U-coupdate", "budget increment/decrement mirror", ok, c.pos(a.Pos()), fmt.Sprintf("dealAddProposalTx: %v %v loop=%v; dealDelProposalTx: %v %v loop=%v; both range over all Budgets", ao, aop, al, do, dop, dl))
 	// writers of proposalsUsedAmount
 	w := c.fieldStores("TxPool", "proposalsUsedAmount", true)
